@@ -258,6 +258,17 @@ def judge_process(case):
             nm, u, w = bad[0]
             v.append(core.viol("C07/process/" + case["kind"], "%s at step %d: %r with a mass-fraction initial feed, %r with the equivalent mole fraction" % (nm, k, u, w), step=k))
             break
+    # the caller's MOLAR Conditions object is first handed to a model of another mixture (same kind), then to this one: the mole
+    # fraction it states must still be read as a mole fraction of THIS mixture (bit-identical to the fresh-object run)
+    if not v:
+        other = "H2O_iPOH" if case["mixture"] != "H2O_iPOH" else "MeOH_DMC"
+        s_other = traces.Setup(dict(case, mixture=other, model="NRTL", basis="molar", budget=BUDGET // 4))
+        s_this = traces.Setup(dict(case, basis="molar", budget=BUDGET // 4))
+        s_other.run(steps=1, conditions=s_this.conditions)
+        st3, pm3 = s_this.run()
+        if st3 != "ok" or traces.trace_digest(traces.extract(pm3)) != traces.trace_digest(tb):
+            v.append(core.viol("C07/molar_conditions_reused/" + case["kind"], "a Conditions object stating a MOLE fraction was used with another mixture first: the run then %s" % (
+                "raises %r" % (pm3,) if st3 != "ok" else "starts from feed mass fraction %r instead of %r" % (traces.extract(pm3)["x"][0], tb["x"][0]))))
     return core.result("judged", digest=traces.trace_digest(ta), viol=v, states=2 * n, transitions=2 * max(n - 1, 0), traces=2)
 
 
@@ -333,6 +344,18 @@ def main(tier, seed):
         sp = core.Space(name, alph, cons)
         spaces.prewarm(sp)
         core.run_space(rep, sp, judge_process)
+    # curve sets measured over a NARROW composition range: the feed's mass fraction lies inside the range, the NUMBER of its mole
+    # fraction outside (and the other way round) - whatever the models decide from "inside / outside the measured range" must be
+    # decided in one basis
+    narrow = dict(non)
+    narrow.update(mixture=["H2O_EtOH", "MeOH_DMC"] if q else ["H2O_EtOH", "MeOH_DMC", "S2"], model=["NRTL"], prog=["none"], init_perm=[None], area=[0.05], amount=[50.0], steps=[3],
+                  T=[333.15, 338.15], dt=core.lat([0.1], seed),
+                  curves=[{"law": "lawA", "temps": [343.15, 313.15], "xs": [0.05, 0.1, 0.15, 0.2, 0.25, 0.3]}, {"law": "lawA", "temps": [333.15], "xs": [0.05, 0.1, 0.15, 0.2, 0.25, 0.3]},
+                          {"law": "lawA", "temps": [343.15, 313.15], "xs": [0.3, 0.4, 0.5, 0.6, 0.7]}],
+                  x0=core.lat([0.207, 0.27, 0.33, 0.45, 0.69], seed))
+    sp = core.Space("nonideal_process_twins_narrow_range", narrow, nsp.constraint)
+    spaces.prewarm(sp)
+    core.run_space(rep, sp, judge_process)
     cur = {"mixture": ["H2O_EtOH", "S2"], "model": ["NRTL", "UNIQUAC"], "mode": ["vac", ("T", -20.0), ("p", 0.5)],
            "curves": [spaces.CURVE_CONFIGS["one"], spaces.CURVE_CONFIGS["two"]], "T": [333.15, 318.15], "x": core.lat([0.1, 0.45], seed),
            "dx": [0.02, -0.01], "steps": [3], "init": [None, (2.5e-2, 3.0e-5)]}
@@ -343,7 +366,7 @@ def main(tier, seed):
 def replay(body):
     U.install_fit_memo()
     fn = {"point_entry_points": judge_point, "measurement_extraction": judge_measurements, "ideal_process_twins": judge_process,
-          "nonideal_process_twins": judge_process, "nonideal_curve_twins": judge_nonideal_curve}[body["space"]]
+          "nonideal_process_twins": judge_process, "nonideal_process_twins_narrow_range": judge_process, "nonideal_curve_twins": judge_nonideal_curve}[body["space"]]
     r = fn(body["case"])
     for v in r["viol"]:
         print("violation key=%s: %s" % (v["key"], v["msg"]))
